@@ -252,7 +252,7 @@ class NodeEnv:
     # ---- clock -----------------------------------------------------------------
     def now_ns(self, m):
         self.clock_reads += 1
-        t = sym.fresh('now')
+        t = m.fresh('now')
         m.pc.append(sym.and_(sym.ge(t, self.clock), sym.le(t, (2 ** 63))))
         self.clock = t
         return t
@@ -553,7 +553,7 @@ class NodeEnv:
             def mkpart(m, cid=cid):
                 env = m.st.env
                 cc = env.calls[cid]
-                p = Part(len(env.parts), cc.info['hash'], groupid=1 + cid, partid=len(cc.info['parts']) + 1)
+                p = Part(len(env.parts), cc.info["hash"], groupid=100 + cid, partid=len(cc.info["parts"]) + 1)
                 p.by_pay = cid
                 env.parts.append(p)
                 cc.info['parts'].append(p.pid)
@@ -606,7 +606,7 @@ class NodeEnv:
                 code = int(oc.split(':')[1]) if ':' in oc else 210
                 return env.finish(m, c, err(rpc_error(m, code)))
             st = {'complete': 'COMPLETE', 'pending': 'PENDING', 'failed': 'FAILED', 'failed_warning': 'FAILED'}[oc]
-            pre = preimage_of(h) if oc == 'complete' else sym.fresh('garbage_preimage')
+            pre = preimage_of(h) if oc == 'complete' else m.fresh('garbage_preimage')
             resp = mk_struct(m, 'PayResponse', status=enum_unit(m, 'PayStatus', st), payment_preimage=secret_value(pre),
                              warning_partial_completion=some(Seq([], 'str', tag='warn')) if oc == 'failed_warning' else none(),
                              amount_msat=Adt('Amount', None, {0: 0}), amount_sent_msat=Adt('Amount', None, {0: 0}),
@@ -643,3 +643,20 @@ def _short(x):
     if isinstance(x, Seq):
         return _tokstr(x)
     return repr(x) if not isinstance(x, str) else x
+
+# ----------------------------------------------------------------------------
+# invoice parsing: the byte string identifies an Invoice object supplied by the harness
+# ----------------------------------------------------------------------------
+@I.rx(r'^(core::str::|std::str::)?<impl str>::parse$')
+def _str_parse(m, args, ci):
+    g = ci.generic_args()
+    dty = ci.dest_type(m) or ''
+    if 'Bolt11Invoice' in (g[-1] if g else '') or 'Bolt11Invoice' in dty:
+        s, a, b = seq_of(args[0])
+        key = s.tag if s.tag is not None else bytes(x if isinstance(x, int) else 0 for x in s.items[a:b])
+        env = m.st.env
+        inv = env.parse_invoice(m, s, a, b) if env is not None and hasattr(env, 'parse_invoice') else None
+        if inv is None:
+            return err(Opaque('ParseOrSemanticError'))
+        return ok(inv)
+    raise Unsupported('str::parse::<%s>' % (g,))
